@@ -1147,11 +1147,11 @@ def c09(tier):
     ns = [1, 2, 3, 4, 5, 7, 9, 12, 16, 64, 128, 256] if tier == "quick" else list(range(1, 13)) + [16, 32, 64, 128, 200, 256, 512]
     lag = [{"k": "LaguerreFilter", "g": g} for g in ([0, 1], [1, 2], [9, 10])]
     progs = []; meta = []
-    def add(cfg, kind, xa, xb=None, unit=10, maxabs=1000, tailabs=None, tail=None, agree_from=None):
+    def add(cfg, kind, xa, xb=None, unit=10, maxabs=1000, tailabs=None, tail=None, agree_from=None, flt="f64"):
         pr = [["new", 0, cfg], ["uss", 0, xa, k]]
         if xb is not None:
             pr += [["new", 1, cfg], ["uss", 1, xb, k]]
-        progs.append({"id": len(progs) + 1, "unit": unit, "slots": 2, "prog": pr})
+        progs.append({"id": len(progs) + 1, "unit": unit, "slots": 2, "float": flt, "prog": pr})
         m = {"cfg": cfg, "kind": kind, "unit": unit, "maxabs": maxabs, "len": len(xa)}
         if tailabs is not None:
             m["tailabs"] = tailabs
@@ -1190,6 +1190,11 @@ def c09(tier):
         tail3 = [rnd.randint(-3, 3) for _ in range(H)]
         add(cfg, "pair", [rnd.choice([-2000000000, 2000000000, 1500000000]) for _ in range(300)] + tail3, [rnd.randint(-3000, 3000) for _ in range(300)] + tail3,
             unit=1000, maxabs=2000000000, tailabs=3)
+    # boundedness in the f32 instantiation (a pole that is inside the unit circle in f64 but rounds onto it in f32, an overflow)
+    for nn in (3, 16, 256):
+        for cfg in c09_views(nn):
+            add(cfg, "bounded", [1000 if i % 2 else -1000 for i in range(n)], flt="f32")
+            add(cfg, "bounded", [rnd.randint(-1000, 1000) for _ in range(n)], flt="f32")
     if 512 not in ns:
         # the listed finding KF3 (TrendFlex / ReFlex from N = 436 on a constant tail) is exhibited in every tier
         for kk in ("TrendFlex", "ReFlex"):
